@@ -641,10 +641,13 @@ class ADEV(Pytree):
                     eqn.outvars,
                     Dual.dual_tree(primal_outs, tangent_outs),
                 )
-            (out_dual,) = jax_util.safe_map(dual_env.read, jaxpr.outvars)
-            if not isinstance(out_dual, Dual):
-                out_dual = Dual(out_dual, _zero_tangent_like(out_dual))
-            return out_dual
+            out_duals = [
+                v if isinstance(v, Dual) else Dual(v, _zero_tangent_like(v))
+                for v in jax_util.safe_map(dual_env.read, jaxpr.outvars)
+            ]
+            # A single output is returned bare; several outputs (e.g. a cond
+            # branch returning a tuple) as a list, in the jaxpr's output order.
+            return out_duals[0] if len(out_duals) == 1 else out_duals
 
         return eval_jaxpr_iterate_dual(jaxpr.eqns, dual_env, jaxpr.invars, flat_duals)
 
